@@ -160,7 +160,7 @@ class Ctx:
             cmd += ["-coverage", "1"]
         cmd.append(module + ".tla")
         env = dict(self.env)
-        jto = "-Xss64m"
+        jto = "-Xss64m -Djava.io.tmpdir=%s" % wd   # TLC leaves tlc-<n> directories in java.io.tmpdir
         if dfs:
             jto += " -Dtlc2.tool.queue.IStateQueue=StateDeque"
         env["JAVA_TOOL_OPTIONS"] = jto
